@@ -39,6 +39,7 @@ type Case struct {
 	SkipOK, SkipFail bool
 	T0               int
 	Ops              []Op
+	Default          bool `json:",omitempty"` // limiter.New() without a Config: 5 requests per minute and client IP
 	SubSec           bool `json:",omitempty"` // Expiration is 500ms (below the limiter's one-second resolution); the history then has no clock advances
 }
 
@@ -62,7 +63,11 @@ func newLimiter(c Case, st *vk.Storage, onHandler func(fiber.Ctx)) *fiber.App {
 		cfg.Storage = st
 	}
 	app := fiber.New()
-	app.Use(limiter.New(cfg))
+	if c.Default {
+		app.Use(limiter.New())
+	} else {
+		app.Use(limiter.New(cfg))
+	}
 	app.Get("/", func(ctx fiber.Ctx) error {
 		onHandler(ctx)
 		st, _ := strconv.Atoi(ctx.Query("st"))
@@ -113,7 +118,14 @@ func check(c Case) vk.Verdict {
 	if c.SubSec {
 		exp = 1 << 20 // no clock advance in such a case: the window never rolls in the model
 	}
+	if c.Default {
+		c.Algo, c.Max, c.Exp, c.SkipOK, c.SkipFail, c.SubSec, c.Store = "fixed", 5, 60, false, false, false, "memory"
+		exp = 60
+	}
 	for i, op := range c.Ops {
+		if c.Default && op.Kind == "req" {
+			op.Key, op.Limit = "ip", 5 // every request of the harness comes from one address
+		}
 		if op.Kind == "adv" {
 			if c.SubSec {
 				continue
@@ -250,6 +262,7 @@ func genCase(t *rapid.T) Case {
 		c.SkipFail = true
 	}
 	c.SubSec = rapid.IntRange(0, 9).Draw(t, "subsec") == 0
+	c.Default = rapid.IntRange(0, 19).Draw(t, "default") == 0
 	mode := rapid.SampledFrom([]string{"const", "const", "constdiff", "dynamic"}).Draw(t, "maxmode")
 	constLimit := c.Max
 	if mode == "constdiff" {
